@@ -156,7 +156,7 @@ def compare(op: str, a, b):
     if s is None and getattr(FACTS, "generic_tiny", False):
         # "|x| < epsilon" clean-up tests on a symbolic (generic, non-degenerate) value: a non-constant magnitude is not tiny
         for big, small, sg in ((ra, rb, 1), (rb, ra, -1)):
-            if small.is_const() and abs(small.const_value()) <= Fraction(1, 10 ** 9) and not big.is_const():
+            if small.is_const() and abs(small.const_value()) <= Fraction(1, 10 ** 3) and not big.is_const():
                 names = big.num.atoms() if big.den.is_const() and len(big.num.terms) == 1 else set()
                 if len(names) == 1 and next(iter(names)).startswith("abs("):
                     (m, c), = big.num.terms.items()
